@@ -206,3 +206,154 @@ def c16_consts():
 
 
 GENERATORS = {"C16Consts": c16_consts}
+
+
+# ---------------------------------------------------------------------------------------
+# (T) the `if` guards of the shipped Colang flows as expression trees (Gen/C16Flows.v)
+#
+# The compiled flat elements themselves come from translator/gen_c01.py (Gen/C01Flows.v, guard
+# expressions as strings).  Here every guard string of the option-guarded flows is parsed with
+# Python's `ast` - after the `$name` -> `var_name` rewriting eval_expression itself applies - into
+# the `gexpr` type of Pipe/OptGuards.v.  Coq re-prints each tree (`show`) and compares it with the
+# string, so a wrong parse cannot go unnoticed.
+
+import re as _re
+
+
+def expr_to_gexpr(s: str) -> str:
+    if not isinstance(s, str):
+        raise TranslatorError(f"guard is not a string: {s!r}")
+    py = _re.sub(r"\$([a-zA-Z_][a-zA-Z0-9_]*)", r"var_\1", s)
+    try:
+        tree = ast.parse(py, mode="eval").body
+    except SyntaxError as ex:
+        raise TranslatorError(f"guard `{s}` is not a Python expression: {ex}")
+
+    def conv(n) -> str:
+        if isinstance(n, ast.Name):
+            if not n.id.startswith("var_"):
+                raise TranslatorError(f"guard `{s}`: bare name {n.id}")
+            return f"(GVar {coq_str(n.id[4:])})"
+        if isinstance(n, ast.Attribute):
+            return f"(GAttr {conv(n.value)} {coq_str(n.attr)})"
+        if isinstance(n, ast.Constant):
+            if n.value is None:
+                return "GNone"
+            if n.value is True:
+                return "GTrue"
+            if n.value is False:
+                return "GFalse"
+            raise TranslatorError(f"guard `{s}`: constant {n.value!r} outside the vocabulary")
+        if isinstance(n, ast.Compare):
+            if len(n.ops) != 1:
+                raise TranslatorError(f"guard `{s}`: chained comparison")
+            op = n.ops[0]
+            a, b = conv(n.left), conv(n.comparators[0])
+            if isinstance(op, ast.Is):
+                return f"(GIs {a} {b})"
+            if isinstance(op, ast.Eq):
+                return f"(GEq {a} {b})"
+            raise TranslatorError(f"guard `{s}`: comparison {type(op).__name__} outside the vocabulary")
+        if isinstance(n, ast.UnaryOp) and isinstance(n.op, ast.Not):
+            return f"(GNot {conv(n.operand)})"
+        if isinstance(n, ast.BoolOp):
+            c = "GAnd" if isinstance(n.op, ast.And) else "GOr"
+            out = conv(n.values[0])
+            for v in n.values[1:]:
+                out = f"({c} {out} {conv(v)})"
+            return out
+        raise TranslatorError(f"guard `{s}`: {type(n).__name__} outside the vocabulary")
+
+    return conv(tree)
+
+
+GUARDED_FLOWS = ["process user input", "run dialog rails", "generate bot message", "process bot message"]
+
+
+def _v1_if_guards(rel, wanted):
+    import sys
+    from translator.consts import REPO
+    if REPO not in sys.path:
+        sys.path.insert(0, REPO)
+    from nemoguardrails.colang import parse_colang_file
+    import os
+    with open(os.path.join(REPO, rel), encoding="utf-8") as f:
+        parsed = parse_colang_file(os.path.basename(rel), f.read())
+    flows = {fl["id"]: fl for fl in parsed["flows"]}
+    out = []
+    for name in wanted:
+        if name not in flows:
+            raise TranslatorError(f"{rel}: flow `{name}` not found")
+        for e in flows[name]["elements"]:
+            if e.get("_type") == "if":
+                out.append(e["expression"])
+    return out
+
+
+def guard_table(exprs):
+    seen = []
+    for x in exprs:
+        if x not in seen:
+            seen.append(x)
+    return "[" + ";\n   ".join(f"({coq_str(x)}, {expr_to_gexpr(x)})" for x in seen) + "]"
+
+
+def injection_consts():
+    """generate_async: `if messages[-1]["role"] == "assistant" and options and options.rails.dialog is False:`
+    moves the trailing message into messages[0]["content"]["bot_message"] and drops it."""
+    tree = _parse("nemoguardrails/rails/llm/llmrails.py")
+    fn = _func(_cls(tree, "LLMRails"), "generate_async")
+    found = None
+    for n in ast.walk(fn):
+        if not isinstance(n, ast.If):
+            continue
+        sets = any(isinstance(s, ast.Assign) and isinstance(s.targets[0], ast.Subscript)
+                   and isinstance(s.targets[0].slice, ast.Constant) and s.targets[0].slice.value == "bot_message"
+                   for s in n.body)
+        if sets:
+            if found is not None:
+                raise TranslatorError("generate_async: two bot_message injections")
+            found = n
+    if found is None:
+        raise TranslatorError("generate_async: bot_message injection not found")
+    t = found.test
+    if not (isinstance(t, ast.BoolOp) and isinstance(t.op, ast.And) and len(t.values) == 3):
+        raise TranslatorError("generate_async: injection condition is not a 3-way conjunction")
+    role, opt, dlg = t.values
+    want_role = ast.dump(ast.parse('messages[-1]["role"] == "assistant"', mode="eval").body)
+    want_dlg = ast.dump(ast.parse("options.rails.dialog is False", mode="eval").body)
+    if ast.dump(role) != want_role or not (isinstance(opt, ast.Name) and opt.id == "options") or ast.dump(dlg) != want_dlg:
+        raise TranslatorError("generate_async: injection condition has an unexpected shape: " + ast.unparse(t))
+    # body: bot_message := content of the last message; the message is removed
+    drops = any(isinstance(s, ast.Assign) and isinstance(s.targets[0], ast.Name) and s.targets[0].id == "messages"
+                and ast.dump(s.value) == ast.dump(ast.parse("messages[0:-1]", mode="eval").body) for s in found.body)
+    takes = any(isinstance(s, ast.Assign) and ast.dump(s.value) == ast.dump(ast.parse('messages[-1]["content"]', mode="eval").body)
+                for s in found.body)
+    if not (drops and takes):
+        raise TranslatorError("generate_async: injection body has an unexpected shape")
+    return {"role": "assistant"}
+
+
+def c16_flows():
+    guards = _v1_if_guards("nemoguardrails/rails/llm/llm_flows.co", GUARDED_FLOWS)
+    inj = injection_consts()
+    lines = [
+        "(* GENERATED on every run by /verif/translator/gen_c16.py from the current source tree. Do not edit. *)",
+        "From Coq Require Import String List.",
+        "From NG Require Import Pipe.OptGuards.",
+        "Import ListNotations.",
+        "Open Scope string_scope.",
+        "",
+        "(* the `if` guards of process user input / run dialog rails / generate bot message / process bot message *)",
+        f"Definition c16_guard_table : list (string * gexpr) :=\n  {guard_table(guards)}.",
+        "",
+        "(* generate_async moves a trailing message with this role into $bot_message iff options are given",
+        "   and options.rails.dialog is False (shape checked by the translator) *)",
+        f"Definition inject_role : string := {coq_str(inj['role'])}.",
+        "Definition inject_iff_options_and_dialog_is_false : bool := true.",
+        "",
+    ]
+    return "\n".join(lines)
+
+
+GENERATORS["C16Flows"] = c16_flows
